@@ -9,4 +9,5 @@ CONSTANTS
  Shifts = {0}
  SymOffs = {1}
  MaxNames = 4
+ PoolSel = "base"
 CHECK_DEADLOCK FALSE
